@@ -20,8 +20,27 @@ from props.totals_common import run_trace_spec
 
 
 # ----------------------------------------------------------------------------------------- real evaluation ----------
+# Evaluations that bind (with :=) the names other expressions read as primitives, variables, data sources or loop
+# variables - one that then fails, one that succeeds.  The meaning of an expression is a function of the expression and its
+# environment, so running these before an evaluation must never change its value.
+POISON = ['(amount := 7) > 0 and (orders := 3) > 0 and (r := 5) > 0 and (x := 1) > 0 and (date := 1) > 0 and (month := 99) > 0 '
+          'and (txn := 2) > 0 and (a := 4) > 0 and (b := 4) > 0 and (m := 4) > 0 and (t := 4) > 0 and (q := 4) > 0 and (year := 1) > 0',
+          '[zz for r in orders for x in orders]',
+          # the failing one LAST: what it bound is still there if only successful evaluations clean up
+          '(amount := 7) > 0 and (description := "zz") == "zz" and (lim := 1) > 0 and (big := 0) == 0 and (field := 3) > 0 '
+          'and (orders := 3) > 0 and (month := 99) > 0 and amount < "x"']
+_poison_tick = [0]
+
+
 def real_eval(src, env):
     from tally import expr_parser as EP
+    _poison_tick[0] += 1
+    if _poison_tick[0] % 3 == 0:
+        for p in POISON:
+            try:
+                EP.evaluate_transaction(p, dict(env['txn']), dict(env['vars']), env['rows'])
+            except EP.ExpressionError:
+                pass
     try:
         v = EP.evaluate_transaction(src, dict(env['txn']), dict(env['vars']), env['rows'])
     except EP.ExpressionError:
@@ -340,6 +359,7 @@ def record_and_validate(item):
             tam = json.loads(json.dumps(r))
             tam['id'] = 'TAMPER'
             tam['obs']['v'] = not tam['obs']['v']
+            tam_of = r['id']
             break
 
     class Shim:
@@ -350,7 +370,8 @@ def record_and_validate(item):
     sh = Shim()
     rej = run_trace_spec(sh, 'Trace_Expr', recs + ([tam] if tam else []), module='Trace_Expr', cfg='Trace_Expr.cfg', timeout=3000)
     skipped = tlc.extract_tagged(sh.res.stdout, 'SKIPPED')[-1][1]
-    tamper_ok = tam is None or 'TAMPER' in rej
+    # the flipped record must be rejected - unless the record it was made from is itself rejected (then the flip may be right)
+    tamper_ok = tam is None or 'TAMPER' in rej or tam_of in rej
     rej.pop('TAMPER', None)
     skipped = [s for s in skipped if s != 'TAMPER']
     out = []
